@@ -329,9 +329,11 @@ fn configs(prop: &'static str, tier: Tier) -> Vec<Rl> {
     for window in [WindowType::Fixed, WindowType::SlidingLog, WindowType::SlidingCounter] {
         for limit in [1usize, 2] {
             for timeout in [0u64, 10, 40, 60, 100] {
+                // thorough: four callers for both limits (five callers with limit 2 exceed the
+                // state cap at depth 22 without adding a new kind of race)
                 let callers = match tier {
                     Tier::Quick => limit + 2,
-                    Tier::Thorough => limit + 3,
+                    Tier::Thorough => 4,
                 };
                 v.push(Rl { prop, window, limit, timeout, callers, max_ticks: tier.pick(9, 12), max_drops: tier.pick(1, 2) });
             }
@@ -367,7 +369,7 @@ fn main() {
         rep.require_witness(w);
     }
     let depth = tier.pick(16, 22);
-    rep.bounds = json!({"depth": depth, "period_ms": PERIOD, "grid_ms": 10, "max_ticks": tier.pick(9,12), "callers": "limit+2 (quick) / limit+3 (thorough)"});
+    rep.bounds = json!({"depth": depth, "period_ms": PERIOD, "grid_ms": 10, "max_ticks": tier.pick(9,12), "callers": "limit+2 (quick) / 4 (thorough)"});
     for cfg in configs(prop, tier) {
         let opts = Opts { max_depth: depth, time_cap: Duration::from_secs(tier.pick(30, 600)), ..Opts::default() };
         let ex = svcx::explore(&cfg, &opts, &mut rep);
